@@ -129,9 +129,9 @@ CandOf(CT, n, m, mode, gap) ==
 
 (* The optimum by definition, and the optimal alignments by definition, over a candidate set *)
 IdealOver(C, s1, s2, M, gap, mode) ==
-  LET sc == [t \in C |-> ScoreTrace(t, s1, s2, M, gap, mode = "semi")]
-      best == SetMax({sc[t] : t \in C})
-  IN [opt |-> best, set |-> {t \in C : sc[t] = best}]
+  LET scored == {<<t, ScoreTrace(t, s1, s2, M, gap, mode = "semi")>> : t \in C}   \* each candidate scored once
+      best == SetMax({p[2] : p \in scored})
+  IN [opt |-> best, set |-> {p[1] : p \in {q \in scored : q[2] = best}}]
 IdealOpt(ST, s1, s2, M, gap, mode) ==
   IdealOver(Candidates(ST, Len(s1), Len(s2), mode, gap), s1, s2, M, gap, mode).opt
 IdealOptSet(ST, s1, s2, M, gap, mode) ==
